@@ -108,7 +108,9 @@ def run_recv(seed, stream, cfg, res=None, peer_extra=None, side=None, policy=Non
     with w:
         ws = w.ws
         c = ws.WebSocket(fire_cont_frame=bool(cfg.get("fire_cont")),
-                         skip_utf8_validation=bool(cfg.get("skip_utf8")))
+                         skip_utf8_validation=bool(cfg.get("skip_utf8")),
+                         # enable_multithread=False swaps the locks for a no-op stand-in: same behaviour for one thread
+                         enable_multithread=not cfg.get("no_multithread"))
         if T is not None:
             c.settimeout(T / S)
         if prior is not None:
